@@ -241,6 +241,22 @@ def decodeOutputInt (q : Quirks) (r : Arg) (n : Nat) : QVal :=
   if q.formatOutcomeIntPadRight then decodeOutput r (formatOutcomeInt n)
   else decodeOutput r ((zfill r.bitvec.length (binDigits n)).map (· == '1'))
 
+/-! ## What the caller's reading object looks like after a call
+
+Python passes the `List[bool]` reading by reference; `str` and `int` readings are immutable. -/
+
+/-- the caller's list after `format_outcome(out, out_len)` — and after
+`interpret_as_qtype(out, qtype, out_len)`, whose first statement is that call on the same object.
+Quirk `formatOutcomePadsInPlace` (the code as it is): `out += [False] * (out_len - len(out))`
+extends the caller's object; repaired: the padding goes onto a copy. -/
+def formatOutcomeArgAfter (q : Quirks) (out : List Bool) (outLen : Option Nat) : List Bool :=
+  if q.formatOutcomePadsInPlace then formatOutcome out outLen else out
+
+/-- the caller's list after `decode_output(istr)`: `format_outcome(istr)` (no `out_len`) is the only
+call that sees the object itself, `[::-1]` copies -/
+def decodeOutputArgAfter (q : Quirks) (istr : List Bool) : List Bool :=
+  formatOutcomeArgAfter q istr none
+
 /-! ## `decode_counts` -/
 
 /-- `if e in d: d[e] += c else: d[e] = c` -/
